@@ -2117,7 +2117,16 @@ fn execute_with_progress(desc: &RunDesc, cell: Option<Arc<AtomicU64>>) -> Outcom
                             expected: "the same set of definitions".into(),
                         });
                     } else if a != b {
+                        // the same set of definitions in another ORDER: the text depends
+                        // on how the definitions were delivered, not only on what they are
                         base.probe("variant_same_set_different_text");
+                        base.violations.push(Violation {
+                            invariant: v.relation.clone(),
+                            key: format!("{}-diff:order", v.relation),
+                            step,
+                            observed: "the re-ordered / re-batched history defines the same items but renders them in a different order (or with different doc text)".into(),
+                            expected: "byte-identical output for the same definitions under the same settings".into(),
+                        });
                     }
                 }
                 (Some(_), None) => {
